@@ -156,6 +156,11 @@ def cases(c, rng, shard):
                     yield harness.fill_derived(c, a, rng)
     for _ in range(n):
         yield harness.random_args(c, rng)
+    if c.xfer in ("alloc", "allocarg"):
+        # the allocation length left at its default
+        for _ in range(6):
+            r = harness.random_args(c, rng)
+            yield {k: r[k] for k, v in c.args.items() if v[2] is S.REQ or k in c.facade_req}
     if c.xfer in ("alloc", "read", "write", "allocarg"):
         for a in harness.huge_cases(c, rng):
             a["_huge"] = True
@@ -244,7 +249,7 @@ def one(ctx, c, setname, a, transports, do_transports, rng):
                 dev, log = mk(setname)
                 s = harness.make_facade(dev)
                 err = None
-                if c.xfer in ("alloc", "allocarg") and not isinstance(cmd.datain, Huge) and ctx.evaluations % 2:
+                if c.xfer in ("alloc", "allocarg") and not isinstance(cmd.datain, Huge) and (ctx.evaluations % 2 or len(a) < len(full)):
                     # the device has more to report than fits the allocation length: it reports the full length and
                     # transfers what fits; every hand-off of the command must still carry buffers that match its CDB
                     import sys as _sys
